@@ -507,7 +507,7 @@ def gen_source(rng, tier):
         return gen_text_source(rng)
     fmt = rng.choice(sorted(FNAMES))
     n = rng.choice([1, 1, 2, 2, 3, 3, 4, 5, 8, 13, 50] if tier == "thorough" else [1, 2, 2, 3, 3, 4, 5, 8, 21])
-    kind = rng.choice(["list", "gen", "iterobj", "gen_raise", "gen_fresh", "gen_fresh", "gen_reuse"])
+    kind = rng.choice(["list", "gen", "iterobj", "gen_raise", "gen_fresh", "gen_fresh", "gen_reuse", "gen_reentrant"])
     same_natom = rng.randint(2, 6) if (kind == "gen_reuse" or rng.random() < 0.3) else None
     objs = [gen.random_mol(rng, natom=same_natom, with_bonds=fmt in ("sdf", "mol2", "pdb") and rng.random() < 0.8,
                            with_charges=fmt == "mol2", pdb=fmt == "pdb", title=rng.random() < 0.8 or kind == "gen_reuse")
